@@ -36,9 +36,9 @@ ASSUMPTIONS = [
     "a HeterogeneousLinearModel applied at another resolution uses the nearest-neighbour (cv2.INTER_NEAREST) resampling of its original label map",
 ]
 FLOORS = {
-    "quick": {"two_live_objects": 400, "clip": 300, "linear": 300, "combined_composition": 100, "combined_routing": 300, "heterogeneous_linear": 80, "heterogeneous_resolution_history": 100, "combined_routing_grouped": 100, "threshold": 150, "threshold_integer_signals": 500, "kernel_reproduces_values": 60, "kernel_values_updated": 100, "kernel_supports_replaced": 25, "heterogeneous_integer_signals": 150, "combined_with_labelwise_part": 150, "linear_models_on_images": 150, "kernel_advanced_updated": 15,
+    "quick": {"two_live_objects": 400, "clip": 300, "linear": 300, "combined_composition": 100, "combined_routing": 300, "heterogeneous_linear": 80, "heterogeneous_resolution_history": 100, "combined_routing_grouped": 100, "threshold": 150, "threshold_integer_signals": 500, "kernel_reproduces_values": 60, "kernel_values_updated": 100, "kernel_supports_replaced": 25, "heterogeneous_integer_signals": 150, "combined_with_labelwise_part": 150, "linear_models_on_images": 150, "threshold_3d_label_maps": 100, "combined_vector_valued_dof": 80, "kernel_advanced_updated": 15,
               "kernel_numba_equals_plain_sum": 150, "polynomial_span": 5},
-    "thorough": {"two_live_objects": 4000, "clip": 3000, "linear": 3000, "combined_composition": 1000, "combined_routing": 3000, "heterogeneous_linear": 800, "heterogeneous_resolution_history": 1000, "combined_routing_grouped": 1000, "threshold": 1500, "threshold_integer_signals": 5000, "kernel_reproduces_values": 600, "kernel_values_updated": 1000, "kernel_supports_replaced": 250, "heterogeneous_integer_signals": 1500, "combined_with_labelwise_part": 1500, "linear_models_on_images": 1500, "kernel_advanced_updated": 150,
+    "thorough": {"two_live_objects": 4000, "clip": 3000, "linear": 3000, "combined_composition": 1000, "combined_routing": 3000, "heterogeneous_linear": 800, "heterogeneous_resolution_history": 1000, "combined_routing_grouped": 1000, "threshold": 1500, "threshold_integer_signals": 5000, "kernel_reproduces_values": 600, "kernel_values_updated": 1000, "kernel_supports_replaced": 250, "heterogeneous_integer_signals": 1500, "combined_with_labelwise_part": 1500, "linear_models_on_images": 1500, "threshold_3d_label_maps": 1000, "combined_vector_valued_dof": 800, "kernel_advanced_updated": 150,
                  "kernel_numba_equals_plain_sum": 1500, "polynomial_span": 5},
 }
 SHARD_TIMEOUT = {"quick": 1500, "thorough": 7200}
@@ -363,6 +363,43 @@ def run_shard(spec, R):
                     ok, outm = R.guarded("threshold", lambda: tm(xx, msk))
                     if ok:
                         R.check(np.array_equal(outm, exp & msk), "threshold", {**case, "what": "restricted to mask"})
+            # three-dimensional signals with a three-dimensional label map
+            shp3 = (int(rng.integers(2, 5)), int(rng.integers(2, 5)), int(rng.integers(2, 4)))
+            lab3 = np.array(values)[rng.integers(0, nl, size=shp3)]
+            for v in values:
+                lab3.flat[int(rng.integers(0, lab3.size))] = v
+            vals3 = sorted(set(int(v) for v in np.unique(lab3)))
+            if len(vals3) == nl:
+                x3 = rng.uniform(-1, 2, size=shp3)
+                ok3, t3 = R.guarded("threshold", lambda: darsia.StaticThresholdModel(list(lo), list(hi), labels=lab3))
+                if ok3:
+                    ok3, o3 = R.guarded("threshold", lambda: t3(x3), key=lambda e, w: "C14:heterogeneous_threshold_three_dimensional_labels")
+                if ok3:
+                    e3 = np.zeros(shp3, bool)
+                    for li, v in enumerate(values):
+                        e3 |= (x3 > lo[li]) & (x3 < hi[li]) & (lab3 == v)
+                    R.check(np.array_equal(o3, e3), "threshold", {"model": "StaticThresholdModel", "shape": list(shp3), "labels": values, "what": "3-D signal and label map"},
+                            key="C14:heterogeneous_threshold_three_dimensional_labels", group="3d_labels")
+                    R.count("threshold_3d_label_maps")
+            # a combined model addressed through dofs whose first entry is vector valued (label-wise scalings): the next
+            # entry receives the value that follows those of the first
+            if ok and nl >= 2:
+                hmd = darsia.HeterogeneousLinearModel(labels.astype(np.uint8), scaling=sc.copy(), offset=of.copy())
+                lind = darsia.LinearModel(scaling=1.0, offset=0.0)
+                cmd = darsia.CombinedModel([hmd, lind])
+                pvec = np.concatenate([rng.uniform(0.5, 2, size=nl), [0.375]])
+                okd, _ = R.guarded("combined_routing", lambda: cmd.update_model_parameters(pvec.copy(), [(0, "scaling"), (1, "offset")]), key=lambda e, w: "C14:combined_model_vector_valued_dof_cursor")
+                if okd:
+                    okd, outd = R.guarded("combined_routing", lambda: cmd(x.copy()))
+                if okd:
+                    expd = np.zeros(shp)
+                    for li, v in enumerate(values):
+                        expd[labels == v] = (pvec[li] * x + of[li])[labels == v]
+                    expd = expd + 0.375
+                    R.check(bool(np.allclose(outd, expd, rtol=1e-13, atol=1e-13)), "combined_routing", {**case, "what": "vector-valued dof (label-wise scalings) followed by another dof",
+                                                                                                        "linear_offset_after_update": float(lind._offset)},
+                            key="C14:combined_model_vector_valued_dof_cursor", group="vector_valued_dof")
+                    R.count("combined_vector_valued_dof")
             # integer-typed signals with bounds that are not integers (and bounds exactly on signal values)
             for idt in (np.uint8, np.int16, np.uint16):
                 lo_i, hi_i = float(rng.integers(0, 4)) + float(rng.choice([-0.5, 0.0, 0.5])), float(rng.integers(4, 9)) + float(rng.choice([-0.5, 0.0, 0.5]))
